@@ -14,11 +14,13 @@ def run(ctx, keep=lambda f: not f.startswith("derivative")):
                          build=("TFELMathParser",),
                          rule="every arithmetic tree of depth <= 2 over {1,2,x,y} and + - * / ** unary-minus, and depth-3 trees with one "
                               "leaf operand (all depth-3 trees in thorough), each printed minimally / with white space / fully parenthesised "
-                              "and judged against the exact rational value (and exact derivative); the 28 documented unary and 4 binary "
-                              "functions and power<N> on 4 arguments in and out of their domains; 35 malformed formulas; "
+                              "and judged against the exact rational value (and the exact derivative with respect to x and y whenever no exponent depends on "
+                              "the variable, a Richardson finite difference otherwise); the 28 documented unary and 4 binary "
+                              "functions and power<N> on 4 arguments in and out of their domains, 50 compositions f(g(.)), derivatives with respect to "
+                              "x and y; 35 malformed formulas; "
                               "non-trivial = contains an operator or a function",
                          nontrivial=lambda c: c["kind"] != "arith" or c["tree"]["t"] not in ("num", "var"),
                          sig=lambda f, b: f, keep=keep,
                          assumptions=["function values are compared with the C library function of the documented name (4 ulp), not with exact values",
-                                      "function derivatives are compared with a Richardson finite difference of the evaluator's own values (1e-6)",
+                                      "function derivatives (and derivatives of powers whose exponent depends on the variable) are compared with a Richardson finite difference of the evaluator's own values (1e-6)",
                                       "getCxxFormula, resolveDependencies and parameter rewriting are not covered"])
